@@ -1,13 +1,14 @@
 from core import Unit as U
 HASH = ["secp256k1_sha256_write", "secp256k1_sha256_finalize", "secp256k1_schnorrsig_sha256_tagged_aggregation"]
+GUARD = ["secp256k1_ge_set_gej", "secp256k1_ge_set_gej_var", "secp256k1_gej_eq_x_var", "secp256k1_scalar_inverse", "secp256k1_scalar_inverse_var"]   # not called by the present code: a change that starts calling them meets the frame-only oracle contract (contracts/assumed.h) instead of a field inversion body (which would only time out)
 UNITS = [
     U("C17.aggverify_b2", ["C17"], "harness/C17/aggverify.c", "h_aggverify", defs=["C17_NBOUND=2"], bounded="n<=2",
-      replace=HASH + ["secp256k1_ge_set_xo_var", "secp256k1_schnorrsig_challenge", "secp256k1_ecmult", "secp256k1_ecmult_gen", "secp256k1_gej_add_ge_var", "secp256k1_gej_add_var"],
+      replace=HASH + ["secp256k1_ge_set_xo_var", "secp256k1_schnorrsig_challenge", "secp256k1_ecmult", "secp256k1_ecmult_gen", "secp256k1_gej_add_ge_var", "secp256k1_gej_add_var"] + GUARD,
       assumed=["secp256k1_ge_set_xo_var", "secp256k1_ecmult", "secp256k1_ecmult_gen", "secp256k1_gej_add_ge_var", "secp256k1_gej_add_var"],
       functions=["secp256k1_schnorrsig_aggverify"], unwind=66, unwindset=["secp256k1_schnorrsig_aggverify.0:3"], timeout=900, min_obl=3500, replay=False, solver="cadical", slice_formula=True,
       note="bounded stand-in of C17.aggverify: same harness and contracts, loop unwound for n <= 2 (works on /repo without the loop-contract hook)"),
     U("C17.aggverify_b3", ["C17"], "harness/C17/aggverify.c", "h_aggverify", defs=["C17_NBOUND=3"], bounded="n<=3",
-      replace=HASH + ["secp256k1_ge_set_xo_var", "secp256k1_schnorrsig_challenge", "secp256k1_ecmult", "secp256k1_ecmult_gen", "secp256k1_gej_add_ge_var", "secp256k1_gej_add_var"],
+      replace=HASH + ["secp256k1_ge_set_xo_var", "secp256k1_schnorrsig_challenge", "secp256k1_ecmult", "secp256k1_ecmult_gen", "secp256k1_gej_add_ge_var", "secp256k1_gej_add_var"] + GUARD,
       assumed=["secp256k1_ge_set_xo_var", "secp256k1_ecmult", "secp256k1_ecmult_gen", "secp256k1_gej_add_ge_var", "secp256k1_gej_add_var"],
       functions=["secp256k1_schnorrsig_aggverify"], unwind=66, unwindset=["secp256k1_schnorrsig_aggverify.0:4"], timeout=1800, tier="thorough", min_obl=3500, replay=False, solver="cadical", slice_formula=True,
       note="bounded stand-in of C17.aggverify: same harness and contracts, loop unwound for n <= 3 (works on /repo without the loop-contract hook)"),
@@ -31,7 +32,7 @@ UNITS = [
       unwindset=["secp256k1_schnorrsig_inc_aggregate.0:1", "secp256k1_schnorrsig_inc_aggregate.1:1", "secp256k1_schnorrsig_inc_aggregate.2:1"], timeout=600, min_obl=100, replay=False, solver="cadical", slice_formula=True,
       note="count-overflow / NULL / buffer-too-small gates for EVERY n_before, n_new, length (exact-size objects): inputs restricted to those the specification rejects before the first loop; entering a loop fails the unwinding assertion"),
     U("C17.aggverify_loop", ["C17"], "harness/C17/aggverify.c", "h_aggverify", defs=["C17_LOOP"],
-      replace=HASH + ["secp256k1_ge_set_xo_var", "secp256k1_schnorrsig_challenge", "secp256k1_ecmult", "secp256k1_ecmult_gen", "secp256k1_gej_add_ge_var", "secp256k1_gej_add_var"],
+      replace=HASH + ["secp256k1_ge_set_xo_var", "secp256k1_schnorrsig_challenge", "secp256k1_ecmult", "secp256k1_ecmult_gen", "secp256k1_gej_add_ge_var", "secp256k1_gej_add_var"] + GUARD,
       assumed=["secp256k1_ge_set_xo_var", "secp256k1_ecmult", "secp256k1_ecmult_gen", "secp256k1_gej_add_ge_var", "secp256k1_gej_add_var"],
       functions=["secp256k1_schnorrsig_aggverify"],
       loop_contracts={"secp256k1_schnorrsig_aggverify": {"for (i = 0; i < n; ++i)": {
